@@ -423,7 +423,10 @@ Lemma iter_documents_inv c f c1 m :
 Proof.
   unfold iter_documents. intros H.
   destruct (expire c) as [c0|e]; [ | discriminate H ]. cbn [bind] in H.
-  dm H. cbn [bind] in H. dm H. inv_pair H. auto.
+  destruct (match docs c0 with [] => filter_applies f (VDoc []) | _ => Ok true end) as [b|e];
+    cbn [bind] in H; [ | destruct (Nat.eqb _ _); discriminate H ].
+  destruct (scan f (docs c0)) as [m'|e] eqn:Es; [ | destruct (Nat.eqb _ _); discriminate H ].
+  inv_pair H. auto.
 Qed.
 
 (* a sparse index skips only documents it does not cover (inside the guard) *)
